@@ -31,6 +31,9 @@ pub enum Case {
     Start { pieces: Vec<Piece>, sep: u8, trailing: bool, padding_frac: Fx, blocking_frac: Fx, raw_bytes: Option<Vec<u8>> },
     /// null pointers
     Null { which: u8, machines: Vec<MachineSpec> },
+    /// the clock the C API reads itself: a blocking-fraction limit that is exceeded right after a
+    /// block and clearly met again after an idle period (real sleeps, judged only with wide margins)
+    Clock { framework_limit: bool, block_ms: u8, idle_ms: u8 },
 }
 
 #[derive(Clone, Debug, Serialize, Deserialize)]
@@ -164,12 +167,12 @@ fn timeouts_fit(m: &MachineSpec) -> bool {
 impl Prop for C20 {
     type Case = Case;
     const ID: &'static str = "C20";
-    const RULE: &'static str = "Run cases: 0..=6 machines with probability-1 transitions, constant distributions and clock-independent limits (blocking fractions 0) x 1..=30 batches of 0..=8 events over the 10 event types with known and unknown machine ids x framework padding fraction; the C API's output buffer sits between canary regions and is pre-filled with a pattern. Start cases: newline-separated pieces (valid machines, arbitrary text, empty pieces), LF / CRLF separators, trailing newline, non-UTF-8 bytes, NaN and out-of-range fractions. Null cases: each of out / instance / events / actions / count null. Non-trivial: a batch that produced >=1 written action with bypass != replace, or a start/null error-path case. Distinct = hash of the case.";
+    const RULE: &'static str = "Run cases: 0..=6 machines with probability-1 transitions, constant distributions and clock-independent limits (blocking fractions 0) x 1..=30 batches of 0..=8 events over the 10 event types with known and unknown machine ids x framework padding fraction; the C API's output buffer sits between canary regions and is pre-filled with a pattern. Start cases: newline-separated pieces (valid machines, arbitrary text, empty pieces), LF / CRLF separators, trailing newline, non-UTF-8 bytes, NaN and out-of-range fractions. Null cases: each of out / instance / events / actions / count null, also together with an empty batch. Clock cases (the C API reads the clock itself): a machine or framework blocking-fraction limit of 0.5, BlockingBegin, a real sleep of 20-40 ms, BlockingEnd, NormalSent (blocked share > 0.6: no action may be written), a real sleep of 120-200 ms, NormalSent (blocked share < 0.4: the BlockOutgoing must be written); a case is judged only when the measured bounds clear the limit by that margin. Non-trivial: a batch that produced >=1 written action with bypass != replace, or a start/null error-path case. Distinct = hash of the case.";
 
     fn profiles(tier: Tier) -> Vec<Profile> {
         match tier {
-            Tier::Quick => vec![prof("run", 48_000), prof("start", 18_000), prof("null", 4_500)],
-            Tier::Thorough => vec![prof("run", 700_000), prof("start", 250_000), prof("null", 50_000)],
+            Tier::Quick => vec![prof("run", 48_000), prof("start", 18_000), prof("null", 4_500), prof("clock", 64)],
+            Tier::Thorough => vec![prof("run", 700_000), prof("start", 250_000), prof("null", 50_000), prof("clock", 640)],
         }
     }
 
@@ -197,6 +200,12 @@ impl Prop for C20 {
                 let piece = prop_oneof![
                     6 => machine(&mp).prop_map(Piece::Valid),
                     1 => "[ -~]{0,40}".prop_map(Piece::Text),
+                    1 => "\\PC{0,12}".prop_map(Piece::Text),
+                    1 => (machine(&mp), "[^\\x00-\\x7f\n\r]{1,3}", any::<bool>()).prop_map(|(m, extra, front)| {
+                        // a valid machine string with characters outside ASCII attached: valid UTF-8, invalid machine
+                        let text = m.build().map(|m| m.serialize()).unwrap_or_default();
+                        Piece::Text(if front { format!("{extra}{text}") } else { format!("{text}{extra}") })
+                    }),
                     1 => "02eN[A-Za-z0-9+/]{0,40}={0,2}".prop_map(Piece::Text),
                     1 => Just(Piece::Empty),
                 ];
@@ -219,6 +228,9 @@ impl Prop for C20 {
                     })
                     .boxed()
             }
+            "clock" => (any::<bool>(), 20u8..40, 120u8..200)
+                .prop_map(|(framework_limit, block_ms, idle_ms)| Case::Clock { framework_limit, block_ms, idle_ms })
+                .boxed(),
             "null" => (0u8..9, proptest::collection::vec(machine(&mp).prop_map(clock_independent), 0..=3))
                 .prop_map(|(which, machines)| Case::Null { which, machines })
                 .boxed(),
@@ -486,6 +498,83 @@ impl Prop for C20 {
                 }
                 for h in hits {
                     obs.hit(h);
+                }
+                Ok(())
+            }
+            Case::Clock { framework_limit, block_ms, idle_ms } => {
+                use maybenot::action::Action;
+                use maybenot::dist::{Dist, DistType};
+                use maybenot::event::Event;
+                use maybenot::state::{State, Trans};
+                use std::time::Duration;
+                // state 0 --NormalSent--> state 1 (BlockOutgoing, 1 ms, no replace) --NormalSent--> state 1
+                let mut t0: enum_map::EnumMap<Event, Vec<Trans>> = Default::default();
+                t0[Event::NormalSent] = vec![Trans(1, 1.0)];
+                let s0 = State::new(t0);
+                let mut t1: enum_map::EnumMap<Event, Vec<Trans>> = Default::default();
+                t1[Event::NormalSent] = vec![Trans(1, 1.0)];
+                let mut s1 = State::new(t1);
+                let konst = |v: f64| Dist { dist: DistType::Uniform { low: v, high: v }, start: 0.0, max: 0.0 };
+                s1.action = Some(Action::BlockOutgoing { bypass: false, replace: false, timeout: konst(0.0), duration: konst(1000.0), limit: None });
+                let (mfrac, ffrac) = if *framework_limit { (0.0, 0.5) } else { (0.5, 0.0) };
+                let m = Machine::new(0, 0.0, 0, mfrac, vec![s0, s1]).unwrap_or_else(|e| panic!("clock machine invalid: {e}"));
+                let text = m.serialize();
+                let secs = |d: Duration| d.as_secs_f64();
+                let before_start = Instant::now();
+                let (code, inst) = c_start(text.as_bytes(), 0.0, ffrac);
+                if code != 0 {
+                    return fail("start-rejects-what-the-rust-api-accepts", format!("clock machine: {code}"));
+                }
+                let after_start = Instant::now();
+                let call = |e: Ev| -> (u32, usize) {
+                    let evs = [ev_c(&e)];
+                    let mut buf: [MaybeUninit<MaybenotAction>; 2] = [MaybeUninit::uninit(), MaybeUninit::uninit()];
+                    let mut count = usize::MAX;
+                    let r = unsafe { maybenot_on_events(inst, evs.as_ptr(), 1, buf.as_mut_ptr(), &mut count) };
+                    (r as u32, count)
+                };
+                let before1 = Instant::now();
+                let r1 = call(Ev::BlockingBegin(7));
+                let after1 = Instant::now();
+                std::thread::sleep(Duration::from_millis(*block_ms as u64));
+                let before3 = Instant::now();
+                let r3 = call(Ev::BlockingEnd);
+                let after3 = Instant::now();
+                let r4 = call(Ev::NormalSent);
+                let after4 = Instant::now();
+                std::thread::sleep(Duration::from_millis(*idle_ms as u64));
+                let before6 = Instant::now();
+                let r6 = call(Ev::NormalSent);
+                unsafe { maybenot_stop(inst) };
+                for (i, r) in [r1, r3, r4, r6].iter().enumerate() {
+                    if r.0 != 0 || r.1 > 1 {
+                        return fail("on-events-error", format!("clock case, call {i}: result {} count {}", r.0, r.1));
+                    }
+                }
+                // right after the block: blocked share at least this much
+                let share_low = secs(before3 - after1) / secs(after4 - before_start);
+                // after the idle period: blocked share at most this much
+                let share_high = secs(after3 - before1) / secs(before6 - after_start);
+                if share_low > 0.6 {
+                    obs.hit("clock_judged_over_limit");
+                    if r4.1 != 0 {
+                        return fail(
+                            "blocking-action-although-the-blocked-share-exceeds-the-limit",
+                            format!("blocked share of the time since start >= {share_low:.3} with limit 0.5 ({}): the C API returned {} action(s)", if *framework_limit { "framework" } else { "machine" }, r4.1),
+                        );
+                    }
+                }
+                if share_high < 0.4 {
+                    obs.hit("clock_judged_under_limit");
+                    obs.nontrivial();
+                    if r6.1 != 1 {
+                        return fail(
+                            "no-blocking-action-although-the-blocked-share-is-below-the-limit",
+                            format!("blocked share of the time since start <= {share_high:.3} with limit 0.5 ({}): the C API returned {} action(s); the Rust framework returns BlockOutgoing for this history and clock", if *framework_limit { "framework" } else { "machine" }, r6.1),
+                        );
+                    }
+                } else {
+                    obs.hit("clock_case_not_judged_timing_too_loose");
                 }
                 Ok(())
             }
